@@ -293,7 +293,8 @@ func cmdCheck(args []string) int {
 		var pend []pending
 		seenSig := map[string]int{}
 		for _, f := range res.Failures {
-			if !inScope(j.Only, f.ID) {
+			// a crash, hang, race or structural breach is never "another property's assertion"
+			if f.Kind == "assert" && !inScope(j.Only, f.ID) {
 				rep.OutOfScope++
 				continue
 			}
